@@ -180,6 +180,10 @@ type link struct {
 	writable    chan struct{}
 	shortMax    int
 	cutAt       int
+	// tap observes every byte at the instant it enters the pipe (the wire
+	// monitor must see both directions in causal order: a write that blocks
+	// half-way has already put bytes on the wire that the peer may act on).
+	tap func(p []byte)
 }
 
 func newLink(s *simkit.Sim, name string, capacity, shortMax int) *link {
@@ -213,7 +217,11 @@ func (l *link) write(p []byte) (int, error) {
 		}
 		room := len(p)
 		if l.capacity > 0 {
-			room = min(room, l.capacity-len(l.inflight))
+			// A bounded pipe: bytes in flight plus delivered bytes the reader
+			// could consume but has not (a receiver that stops reading pushes
+			// back on the sender). Bytes of a frame that has not arrived
+			// completely do not count, so that a frame can always complete.
+			room = min(room, l.capacity-len(l.inflight)-max(0, l.visibleLocked()))
 		}
 		if room <= 0 {
 			l.mu.Unlock()
@@ -222,6 +230,9 @@ func (l *link) write(p []byte) (int, error) {
 			continue
 		}
 		l.inflight = append(l.inflight, p[:room]...)
+		if l.tap != nil {
+			l.tap(p[:room])
+		}
 		l.mu.Unlock()
 		signal(l.pumpWake)
 		written += room
@@ -276,7 +287,17 @@ func (l *link) pump(fragMax int, delay time.Duration) {
 	}
 }
 
-// visible returns how many arrived bytes the reader may consume now.
+// visible returns how many arrived bytes the reader could consume right now.
+func (l *link) visible() int {
+	l.mu.Lock()
+	defer l.mu.Unlock()
+	if l.readClosed || l.cut {
+		return 0
+	}
+	return max(0, l.visibleLocked())
+}
+
+// visibleLocked is visible with l.mu held.
 func (l *link) visibleLocked() int {
 	return l.rx.visibleLimit() - l.consumed
 }
@@ -298,6 +319,7 @@ func (l *link) read(p []byte, short bool) (int, error) {
 			l.arrived = l.arrived[n:]
 			l.consumed += n
 			l.mu.Unlock()
+			signal(l.writable)
 			return n, nil
 		}
 		if len(p) == 0 {
@@ -338,7 +360,6 @@ func (l *link) closeRead() {
 // carrier implements multiplexing.Carrier over two links.
 type carrier struct {
 	in, out *link
-	onWrite func(p []byte)
 	once    sync.Once
 }
 
@@ -371,11 +392,7 @@ func (c *carrier) Discard(n int) (int, error) {
 }
 
 func (c *carrier) Write(p []byte) (int, error) {
-	n, err := c.out.write(p)
-	if c.onWrite != nil && n > 0 {
-		c.onWrite(p[:n])
-	}
-	return n, err
+	return c.out.write(p)
 }
 
 func (c *carrier) Close() error {
